@@ -341,56 +341,68 @@ def check_first_call(rec):
                 dict(spec, iterate=dict(count=20, delta=0.001)
                      if iterative else None),
                 {'S': {'A2': 3, 'B2': 6, 'C2': 7}}, f'{tmp}/book.xlsx')
-            prepared = compile_spec(spec, cycles=True if iterative else None)
-            prepared2 = compile_spec(spec, cycles=True if iterative else None)
-            prepared2.evaluate('S!C2')
-            prepared3 = compile_spec(spec, cycles=True if iterative else None)
-            ops = {
-                'compile': lambda: [compile_spec(
-                    spec, cycles=True if iterative else None).evaluate(a)
-                    for a in ('S!C2', 'S!B2')],
-                'from_file-yml': lambda: [ExcelCompiler.from_file(
-                    f'{tmp}/m.yml').evaluate(a) for a in ('S!C2', 'S!B2')],
-                'from_file-pkl': lambda: [ExcelCompiler.from_file(
-                    f'{tmp}/p.pkl').evaluate(a) for a in ('S!C2', 'S!B2')],
-                'xlsx': lambda: [ExcelCompiler(
-                    filename=f'{tmp}/book.xlsx').evaluate(a)
-                    for a in ('S!C2', 'S!B2')],
-                'evaluate': lambda: [prepared.evaluate(a)
-                                     for a in ('S!C2', 'S!B2')],
-                'set_value': lambda: (prepared2.set_value('S!A1', 3),
-                                      prepared2.set_value('S!A1', 1),
-                                      [prepared2.evaluate(a)
-                                       for a in ('S!C2', 'S!B2')])[2],
-                'trim_graph': lambda: (prepared3.trim_graph(
-                    ['S!A1'], ['S!C2', 'S!B2']), [prepared3.evaluate(a)
-                                                  for a in ('S!C2', 'S!B2')])[1],
-                'validate_calcs': lambda: (ExcelCompiler(
-                    filename=f'{tmp}/book.xlsx').validate_calcs(), want)[1],
-            }
-            for name, op in ops.items():
-                case = dict(kind='first-call', op=name, iterative=iterative)
-                rec.case(key=('first-call', name, iterative), nontrivial=True,
-                         labels=('first-call', name), sample=case)
-                box = {}
+            for variant in ('fresh', 'warm-same'):
+                prepared = compile_spec(spec, cycles=True if iterative else None)
+                prepared2 = compile_spec(spec, cycles=True if iterative else None)
+                prepared2.evaluate('S!C2')
+                prepared3 = compile_spec(spec, cycles=True if iterative else None)
+                ops = {
+                    'compile': lambda: [compile_spec(
+                        spec, cycles=True if iterative else None).evaluate(a)
+                        for a in ('S!C2', 'S!B2')],
+                    'from_file-yml': lambda: [ExcelCompiler.from_file(
+                        f'{tmp}/m.yml').evaluate(a) for a in ('S!C2', 'S!B2')],
+                    'from_file-pkl': lambda: [ExcelCompiler.from_file(
+                        f'{tmp}/p.pkl').evaluate(a) for a in ('S!C2', 'S!B2')],
+                    'xlsx': lambda: [ExcelCompiler(
+                        filename=f'{tmp}/book.xlsx').evaluate(a)
+                        for a in ('S!C2', 'S!B2')],
+                    'evaluate': lambda: [prepared.evaluate(a)
+                                         for a in ('S!C2', 'S!B2')],
+                    'set_value': lambda: (prepared2.set_value('S!A1', 3),
+                                          prepared2.set_value('S!A1', 1),
+                                          [prepared2.evaluate(a)
+                                           for a in ('S!C2', 'S!B2')])[2],
+                    'trim_graph': lambda: (prepared3.trim_graph(
+                        ['S!A1'], ['S!C2', 'S!B2']), [prepared3.evaluate(a)
+                                                      for a in ('S!C2', 'S!B2')])[1],
+                    'validate_calcs': lambda: (ExcelCompiler(
+                        filename=f'{tmp}/book.xlsx').validate_calcs(), want)[1],
+                }
+                for name, op in ops.items():
+                    case = dict(kind='first-call', op=name, iterative=iterative,
+                                variant=variant)
+                    rec.case(key=('first-call', name, iterative, variant),
+                             nontrivial=True,
+                             labels=('first-call', name, variant), sample=case)
+                    box = {}
 
-                def target():
-                    try:
-                        box['result'] = op()
-                    except BaseException as exc:   # noqa
-                        box['exc'] = exc
-                t = threading.Thread(target=target)
-                t.start()
-                t.join(60)
-                mode = 'iterative' if iterative else 'plain'
-                if 'exc' in box:
-                    rec.fail(f'first-call:raises:{name}:{mode}', case,
-                             f'{name} as first call of a new thread raised '
-                             f'{box["exc"]!r}'[:300])
-                elif not models.same_value(box.get('result'), want):
-                    rec.fail(f'first-call:result:{name}:{mode}', case,
-                             f'{name} on a new thread gave '
-                             f'{box.get("result")!r}, expected {want!r}')
+                    def target():
+                        try:
+                            if variant == 'warm-same':
+                                # the thread has just evaluated ANOTHER
+                                # iterative workbook with the same sheet name
+                                # and cell addresses
+                                other = compile_spec(
+                                    {'sheets': {'S': dict(
+                                        spec['sheets']['S'], A1=5, B1=9)}},
+                                    cycles=True)
+                                other.evaluate('S!C2')
+                            box['result'] = op()
+                        except BaseException as exc:   # noqa
+                            box['exc'] = exc
+                    t = threading.Thread(target=target)
+                    t.start()
+                    t.join(60)
+                    mode = 'iterative' if iterative else 'plain'
+                    if 'exc' in box:
+                        rec.fail(f'first-call:raises:{name}:{mode}:{variant}', case,
+                                 f'{name} as first call of a new thread raised '
+                                 f'{box["exc"]!r}'[:300])
+                    elif not models.same_value(box.get('result'), want):
+                        rec.fail(f'first-call:result:{name}:{mode}:{variant}', case,
+                                 f'{name} on a new thread gave '
+                                 f'{box.get("result")!r}, expected {want!r}')
 
 
 # -- shards -------------------------------------------------------------------
